@@ -1,6 +1,8 @@
 package harness
 
 import (
+	"io"
+	"testing/iotest"
 	"bufio"
 	"bytes"
 	"context"
@@ -97,6 +99,10 @@ func startWeb(c *Ctx, root *config.Root, mgr message.Manager, eh *extension.Host
 // reported in the response.
 func (e *webEnv) serve(req *http.Request) (resp httpResp) {
 	e.nreq++
+	if req.Body != nil && req.Body != http.NoBody {
+		// a body arrives in as many pieces as the network likes: hand it over byte by byte
+		req.Body = io.NopCloser(iotest.OneByteReader(req.Body))
+	}
 	req.RemoteAddr = "192.0.2.7:40000"
 	resp.Line = req.Method + " " + req.RequestURI
 	rec := httptest.NewRecorder()
